@@ -351,4 +351,13 @@ theorem Top.sym_sound (I : Interp) (a : Top) : (a.sym.run I).map (Term.eval I) =
   | lam b => simp [Top.sym, Top.eval, Tree.run_bind, Outcome.map, Expr.sym_sound I b]
   | gen elt cl => simpa [Top.sym, Top.eval] using symClauses_sound I elt cl []
 
+theorem evalClauses_not_stuck (I : Interp) (elt : Expr) : ∀ (cl : List Clause) (loops : List (Val × List Nat)),
+    evalClauses I elt loops cl ≠ .stuck
+  | [], _ => by simp [evalClauses]
+  | c :: cs, loops => by
+      simp only [evalClauses]
+      split
+      · exact evalClauses_not_stuck I elt cs _
+      · simp
+
 end PonyVerif.Bytecode
